@@ -79,3 +79,32 @@ func VerifC16ViewStatus() {
 	c16CheckFrame(s, width, height)
 	verifrt.Reach("end")
 }
+
+// VerifC16Resize: a state that has already drawn frames at one size is
+// resized; the frame emitted by the resize and the next one drawn have the
+// new height (nothing laid out for the old size is reused).
+func VerifC16Resize() {
+	log := &frameLog{}
+	maxh := verifrt.Param("maxh", 6)
+	w1 := 12
+	h1 := verifrt.Int("height", 2, maxh)
+	s := newTestState(w1, h1, log)
+	s.mode = verifrt.Choice("mode", 6)
+	s.buffer = verifrt.AnyText("buf", verifrt.Choice("buflen", 2))
+	f := feed.Create(&vItem{tag: 0, lines: 2})
+	f.Append(vItems(1, 100, 1))
+	s.h.Add(&Page{feed: f})
+	c16CheckFrame(s, w1, h1)
+	w2 := []int{12, 5}[verifrt.Choice("width2", 2)]
+	h2 := verifrt.Int("height2", 2, maxh)
+	before := len(log.frames)
+	s.SetWidthHeight(w2, h2)
+	if w2 != w1 || h2 != h1 {
+		verifrt.Assert(len(log.frames) == before+1, "resize-emits-one-frame")
+		if len(log.frames) == before+1 {
+			verifrt.Assert(countLines(log.frames[before]) == h2, "resize-frame-has-exactly-height-lines")
+		}
+	}
+	c16CheckFrame(s, w2, h2)
+	verifrt.Reach("end")
+}
